@@ -126,7 +126,8 @@ ShowPrintItems(items, i, prevExpr, kwPrint) ==
             \o ShowPrintItems(items, i + 1, TRUE, kwPrint)
 SegStmt(s) ==
   CASE s.k = "let" -> Txt((IF s.kw THEN T_LET \o SP ELSE <<>>) \o ShowExpr(s.v) \o <<61>> \o ShowExpr(s.e))
-    [] s.k = "print" -> Txt((IF s.q THEN <<63>> ELSE T_PRINT) \o ShowPrintItems(s.items, 1, FALSE, ~s.q))
+    \* (? is a spelling of PRINT: the listing always shows the word)
+    [] s.k = "print" -> Txt(T_PRINT \o ShowPrintItems(s.items, 1, FALSE, TRUE))
     [] s.k = "goto" -> Txt(T_GOTO \o SP) \o Ref(s.n)
     [] s.k = "gosub" -> Txt(T_GOSUB \o SP) \o Ref(s.n)
     [] s.k = "return" -> Txt(T_RETURN)
